@@ -37,7 +37,8 @@ MANIFEST = dict(
          "interpreter sm_denote is established per run by in-Coq evaluation (model = implementation within 1e-6 ms, and sm_denote "
          "evaluated on the implementation's output) rather than proved for all texts (sm_read_denotes is _partial).",
     note="Trusted: Coq kernel+VM, generator/serialiser, table translator; binary64 rounding measured (tolerance 1e-6 ms) not proved. "
-         "Known finding: a text without a #STOPS tag raises AttributeError (sm-read-no-stops-tag).",
+         "Former finding sm-read-no-stops-tag (a text without a #STOPS tag raised AttributeError) is fixed by d64b5ab; the old behaviour "
+         "survives only as a named OLD variant for the _refuted witness.",
     technique="Coq proof over executable model + vm_compute correspondence against the implementation + reference interpreter",
     design="4/C02")
 
@@ -261,8 +262,7 @@ def bucket(case, out):
 
 
 def classify(case, out, kind):
-    if "#STOPS" not in case["text"] and out.get("v") is None and "AttributeError" in out.get("exc", ""):
-        return "sm-read-no-stops-tag"
+    # the former finding sm-read-no-stops-tag is fixed (d64b5ab): nothing is treated as known any more
     return None
 
 
